@@ -8,6 +8,7 @@ import VC2.Model.StreamDriver
 import VC2.Model.FileFormatDriver
 import VC2.Model.CodecCsvDriver
 import VC2.Model.AutofillDriver
+import VC2.Model.SerdesDriver
 open VC2 VC2.Gen
 
 def parseInts (ws : List String) : Option (List Int) :=
@@ -39,6 +40,7 @@ def step (line : String) : String :=
   | "cf" :: rest => VC2.Model.CodecCsv.handleCf rest
   | "ci" :: rest => VC2.Model.CodecCsv.handleCi rest
   | "af" :: rest => VC2.Model.Autofill.handleAf rest
+  | "sd" :: rest => VC2.Model.Serdes.handleSd rest
   | "ff" :: rest => VC2.Model.FileFormat.handleFf rest
   | "vs" :: rest => VC2.Model.Constraint.handleVs rest
   | "ct" :: rest => VC2.Model.Constraint.handleCt rest
